@@ -23,10 +23,10 @@ RULE = (
 )
 ASSUMPTIONS = [
     'Horace layout as documented in the repository (DESIGN 3.4); no genuine Horace file offline',
-    'titles and paths ASCII',
+    'strings: ASCII and non-ASCII (2-, 3-, 4-byte UTF-8) titles, file names and paths',
     'wall clock frozen by monkeypatching datetime in io.sqw._models/_build',
 ]
-REQUIRED_CLASSES = ['file_decoded', 'perm_identical', 'byteorder_big', 'byteorder_little', 'sink_path', 'sink_bytes', 'sink_path_preexisting_longer_file', 'dnd_singleton_axis', 'chunk_and_pixels_above_2_16', 'multi_chunk_write']
+REQUIRED_CLASSES = ['non_ascii_strings', 'file_decoded', 'perm_identical', 'byteorder_big', 'byteorder_little', 'sink_path', 'sink_bytes', 'sink_path_preexisting_longer_file', 'dnd_singleton_axis', 'chunk_and_pixels_above_2_16', 'multi_chunk_write']
 BOUND = {
     'quick': 'all 326 programs x 3 byte orders x 2 sinks x 2 chunks at 7 pixels; (n, chunk) grid up to 20000 pixels',
     'thorough': 'same plus 100000 pixels and chunk 100000, runs up to 20, strings up to 70000',
@@ -77,6 +77,12 @@ def cases(tier):
         for pl in lens:
             for bo in ('little', 'big'):
                 out.append({'kind': 'strings', 'title_len': tl, 'path_len': pl, 'byteorder': bo})
+    # characters that take 2, 3 and 4 bytes in the file (lengths are counted in characters here)
+    for ch in ('\u00e9', '\u65e5', '\U0001d11e', 'a\u00e9'):
+        for tl in (1, 6, 255):
+            for pl in (0, 6):
+                for bo in ('little', 'big'):
+                    out.append({'kind': 'strings', 'title_len': tl, 'path_len': pl, 'byteorder': bo, 'char': ch})
     return out
 
 
@@ -196,10 +202,14 @@ def run_case(case, rec):
         if n > 65536 and case['chunk'] > 65536:
             rec.cls('chunk_and_pixels_above_2_16')
     elif kind == 'strings':
-        title = ('t' * case['title_len'])
-        fname = ('p' * max(0, case['path_len'] - 4)) + '.sqw' if case['path_len'] else 'x.sqw'
+        ch = case.get('char')
+        fill = (lambda c, n: (c * n)[:n]) if ch is None else (lambda c, n: (ch * n)[:n])
+        title = fill('t', case['title_len'])
+        fname = fill('p', max(0, case['path_len'] - 4)) + '.sqw' if case['path_len'] else 'x.sqw'
         sink = 'path' if 0 < case['path_len'] <= 200 else 'bytes'
-        exps = [sq.experiment(run_id=0, filename='n' * case['path_len'], filepath='/' + 'd' * case['title_len'])]
+        exps = [sq.experiment(run_id=0, filename=fill('n', case['path_len']), filepath='/' + fill('d', case['title_len']))]
+        if ch is not None:
+            rec.cls('non_ascii_strings')
         data, _ = sq.write_file(sq.OPS, byteorder=case['byteorder'], sink=sink, title=title, fname=fname, experiments=exps)
         dec = check_file(rec, case, data, sq.OPS, byteorder=case['byteorder'], n_pixels=7)
         if dec is not None:
